@@ -206,7 +206,7 @@ func (a *APIClient) getBundledVersion(name string) (bundledVersion, bool) {
 }
 
 func (a *APIClient) npmRequirements(root VersionKey, reqs *pb.Requirements_NPM) ([]RequirementVersion, error) {
-	rootDeps := flattenNPMDeps(reqs.Dependencies)
+	rootDeps := flattenNPMDeps(reqs.GetDependencies())
 	// Generate fake packages/versions for anything bundled by this version
 	// and add them to the dependencies with the mangled names expected by
 	// the resolver.
@@ -220,10 +220,11 @@ func (a *APIClient) npmRequirements(root VersionKey, reqs *pb.Requirements_NPM) 
 	}
 	// Sort by the length of the path, so that we're guaranteed to process
 	// bundles closer to the root before their nested bundles.
-	sort.Slice(reqs.Bundled, func(i, j int) bool {
-		return len(reqs.Bundled[i].Path) < len(reqs.Bundled[j].Path)
+	bundled := reqs.GetBundled()
+	sort.Slice(bundled, func(i, j int) bool {
+		return len(bundled[i].Path) < len(bundled[j].Path)
 	})
-	for _, b := range reqs.Bundled {
+	for _, b := range bundled {
 		bundleDeps := flattenNPMDeps(b.Dependencies)
 		// For a package "b" bundled by package "a" which is itself
 		// bundled by root, the path will be
